@@ -299,6 +299,56 @@ func writeFail(prop, unitName, msg string, c interface{}) {
 // WriteFail lets plain (non-rapid) units report a failing case.
 func WriteFail(prop, unitName, msg string, c interface{}) { writeFail(prop, unitName, msg, c) }
 
+// ---- hang watchdog for in-process units whose property includes termination ----
+
+var (
+	hangMu    sync.Mutex
+	hangBound time.Duration // 0: off
+	hangProp  string
+	hangUnit  string
+	hangCase  interface{}
+	hangStart time.Time
+	hangOnce  sync.Once
+)
+
+// HangIsViolation makes a single evaluation of this process that runs longer than bound a
+// reported failure ("did not terminate"): the case is written like any failing case and the
+// process exits non-zero. Only for units whose cases take far less than bound (micro- to
+// milliseconds) and whose property states termination.
+func HangIsViolation(bound time.Duration) {
+	hangMu.Lock()
+	hangBound = bound
+	hangMu.Unlock()
+	hangOnce.Do(func() {
+		go func() {
+			for {
+				time.Sleep(time.Second)
+				hangMu.Lock()
+				if hangBound > 0 && hangCase != nil && time.Since(hangStart) > hangBound {
+					writeFail(hangProp, hangUnit, fmt.Sprintf("the call did not terminate within %v on this input", hangBound), hangCase)
+					fmt.Fprintf(os.Stderr, "%s/%s: evaluation did not terminate within %v\n", hangProp, hangUnit, hangBound)
+					os.Exit(3)
+				}
+				hangMu.Unlock()
+			}
+		}()
+	})
+}
+
+func hangEnter(prop, unitName string, c interface{}) {
+	hangMu.Lock()
+	if hangBound > 0 {
+		hangProp, hangUnit, hangCase, hangStart = prop, unitName, c, time.Now()
+	}
+	hangMu.Unlock()
+}
+
+func hangLeave() {
+	hangMu.Lock()
+	hangCase = nil
+	hangMu.Unlock()
+}
+
 func safeCheck[C any](check func(*Ctx, C) error, ctx *Ctx, c C) (err error) {
 	defer func() {
 		if r := recover(); r != nil {
@@ -321,7 +371,9 @@ func Run[C any](t *testing.T, prop, unitName string, gen func(*rapid.T) C, check
 	rapid.Check(t, func(rt *rapid.T) {
 		c := gen(rt)
 		ctx := &Ctx{}
+		hangEnter(prop, unitName, c)
 		err := safeCheck(check, ctx, c)
+		hangLeave()
 		if err != nil {
 			writeFail(prop, unitName, err.Error(), c)
 			rt.Fatalf("%s/%s: %v", prop, unitName, err)
@@ -334,7 +386,9 @@ func Run[C any](t *testing.T, prop, unitName string, gen func(*rapid.T) C, check
 // on failure writes the failure record and fails the test immediately.
 func Eval[C any](t *testing.T, prop, unitName string, c C, check func(*Ctx, C) error) {
 	ctx := &Ctx{}
+	hangEnter(prop, unitName, c)
 	err := safeCheck(check, ctx, c)
+	hangLeave()
 	if err != nil {
 		writeFail(prop, unitName, err.Error(), c)
 		t.Fatalf("%s/%s: %v", prop, unitName, err)
@@ -364,6 +418,8 @@ func replay[C any](t *testing.T, path, prop, unitName string, check func(*Ctx, C
 	}
 	ctx := &Ctx{replay: true}
 	os.WriteFile(filepath.Join(OutDir(), "replayed"), []byte(unitName), 0o644)
+	hangEnter(prop, unitName, c)
+	defer hangLeave()
 	if err := safeCheck(check, ctx, c); err != nil {
 		writeFail(prop, unitName, err.Error(), c)
 		t.Fatalf("REPLAY-FAIL %s/%s: %v", prop, unitName, err)
